@@ -168,7 +168,7 @@ theorem validate_iff_partial (d : Doc) (h : validDoc d = true) :
   obtain ⟨_, h⟩ := h
   unfold violations at h
   simp only [List.append_eq_nil_iff] at h
-  obtain ⟨⟨⟨⟨⟨⟨_, hroot⟩, hel⟩, _⟩, _⟩, _⟩, _⟩ := h
+  obtain ⟨⟨⟨⟨⟨⟨⟨_, hroot⟩, hel⟩, _⟩, _⟩, _⟩, _⟩, _⟩ := h
   constructor
   · by_cases hr : (d.root.name == d.doctype) = true
     · simpa using hr
@@ -197,13 +197,23 @@ theorem validate_iff_partial (d : Doc) (h : validDoc d = true) :
           rw [if_pos this] at h3; cases h3
 
 open XV.Spec.DtdValid in
-example : validDoc { doctype := 0, decls := [⟨0, .children (.seq (.leaf 1) (.star (.leaf 1))), [⟨0, .id, .required, false⟩], false⟩, ⟨1, .mixed [1], [⟨0, .idref, .implied, false⟩, ⟨1, .enum [10, 11], .dflt [10], false⟩], false⟩], root := .mk 0 {} [⟨0, [20], false⟩] [.mk 1 { text := true } [⟨0, [20], false⟩] [], .mk 1 {} [⟨1, [11], false⟩] []] } = true := by decide
+example : validDoc { doctype := 0, decls := [⟨0, .children (.seq (.leaf 1) (.star (.leaf 1))), [⟨0, .id, .required, false, false⟩], false, false⟩, ⟨1, .mixed [1], [⟨0, .idref, .implied, false, false⟩, ⟨1, .enum [10, 11], .dflt [10], false, false⟩], false, false⟩], root := .mk 0 {} [⟨0, [20], false⟩] [.mk 1 { text := true } [⟨0, [20], false⟩] [], .mk 1 {} [⟨1, [11], false⟩] []] } = true := by decide
 open XV.Spec.DtdValid in
-example : violations { doctype := 0, decls := [⟨0, .children (.leaf 1), [⟨0, .enum [10, 11], .implied, false⟩], false⟩, ⟨1, .empty, [], false⟩], root := .mk 0 {} [⟨0, [10, 11], false⟩] [.mk 1 {} [] []] } = ["attribute-value-type:enumeration-list-of-members"] := by decide
+example : violations { doctype := 0, decls := [⟨0, .children (.leaf 1), [⟨0, .enum [10, 11], .implied, false, false⟩], false, false⟩, ⟨1, .empty, [], false, false⟩], root := .mk 0 {} [⟨0, [10, 11], false⟩] [.mk 1 {} [] []] } = ["attribute-value-type:enumeration-list-of-members"] := by decide
 -- the standalone clause the independently seeded fault removed: an omitted, externally declared #FIXED default
 open XV.Spec.DtdValid in
-example : violations { doctype := 0, standalone := true, hasExt := true, decls := [⟨0, .empty, [⟨0, .cdata, .fixed [1], true⟩], false⟩], root := .mk 0 {} [] [] } = ["standalone:externally-declared-default-needed"] := by decide
+example : violations { doctype := 0, standalone := true, hasExt := true, decls := [⟨0, .empty, [⟨0, .cdata, .fixed [1], true, false⟩], false, false⟩], root := .mk 0 {} [] [] } = ["standalone:externally-declared-default-needed"] := by decide
 open XV.Spec.DtdValid in
-example : validDoc { doctype := 0, standalone := false, hasExt := true, decls := [⟨0, .empty, [⟨0, .cdata, .fixed [1], true⟩], false⟩], root := .mk 0 {} [] [] } = true := by decide
+example : validDoc { doctype := 0, standalone := false, hasExt := true, decls := [⟨0, .empty, [⟨0, .cdata, .fixed [1], true, false⟩], false, false⟩], root := .mk 0 {} [] [] } = true := by decide
+
+-- an <!ELEMENT> delivered by a parameter entity referenced in the INTERNAL subset is an external markup declaration (2.9)
+open XV.Spec.DtdValid in
+example : violations { doctype := 0, standalone := true, decls := [⟨0, .children (.star (.leaf 1)), [], false, true⟩, ⟨1, .empty, [], false, false⟩], root := .mk 0 { ws := true } [] [.mk 1 {} [] []] } = ["standalone:white-space-in-externally-declared-element-content"] := by decide
+-- an IDREF default naming a missing ID is harmless as long as it is never applied (element type never occurs) …
+open XV.Spec.DtdValid in
+example : validDoc { doctype := 0, decls := [⟨0, .empty, [], false, false⟩, ⟨1, .empty, [⟨0, .idref, .dflt [78], false, false⟩], false, false⟩], root := .mk 0 {} [] [] } = true := by decide
+-- … and a violation of VC IDREF once it is applied
+open XV.Spec.DtdValid in
+example : violations { doctype := 0, decls := [⟨0, .empty, [⟨0, .idref, .dflt [78], false, false⟩], false, false⟩], root := .mk 0 {} [] [] } = ["idref-resolves"] := by decide
 
 end XV.Props.C07
